@@ -1,7 +1,31 @@
 use time::OffsetDateTime;
 
 fn now() -> i64 {
+    #[cfg(gmsol_verif)]
+    if let Some(now) = verif::overridden_now() {
+        return now;
+    }
     OffsetDateTime::now_utc().unix_timestamp()
+}
+
+/// Verification hook: a thread-local override of the wall clock used by the model.
+/// Compiled only with `--cfg gmsol_verif`.
+#[cfg(gmsol_verif)]
+pub mod verif {
+    use std::cell::Cell;
+
+    thread_local! {
+        static NOW: Cell<Option<i64>> = const { Cell::new(None) };
+    }
+
+    /// Pin (or release, with `None`) the clock seen by the model on the current thread.
+    pub fn set_now(now: Option<i64>) {
+        NOW.with(|cell| cell.set(now));
+    }
+
+    pub(super) fn overridden_now() -> Option<i64> {
+        NOW.with(|cell| cell.get())
+    }
 }
 
 pub(super) struct AsClock<'a> {
